@@ -1714,3 +1714,207 @@ func shortPaths(p []string) []string {
 	}
 	return o
 }
+
+// ---- C03 at process level: a damaged stored object never turns into output ----
+
+func runC03Proc(c *fw.Case) {
+	c.Probe("process-level-case (real desync binary)")
+	sz := sizes{64, 256, 1024}
+	r := c.Rand("blob.seed")
+	blob := make([]byte, (3+r.IntN(10))*int(sz.avg))
+	for i := range blob {
+		blob[i] = byte(r.IntN(256))
+	}
+	idx := mkIndex(blob, sz)
+	n := len(idx.Chunks)
+	if n < 2 {
+		c.Outcome("empty")
+		return
+	}
+	unc := c.Chance(1, 3, "store.uncompressed")
+	object := func(i int) []byte {
+		b := blob[idx.Chunks[i].Start : idx.Chunks[i].Start+idx.Chunks[i].Size]
+		if unc {
+			return append([]byte(nil), b...)
+		}
+		z, _ := desync.Compress(b)
+		return z
+	}
+	victim := c.Draw(n, "victim")
+	good := object(victim)
+	var bad []byte
+	kind := c.Draw(7, "corruption")
+	kinds := []string{"bit-flip", "truncated", "emptied", "other-chunk", "other-data", "wrong-format", "appended"}
+	switch kind {
+	case 0:
+		bad = append([]byte(nil), good...)
+		pos, bit := c.Draw(len(bad), "flip.pos"), c.Draw(8, "flip.bit")
+		if !unc && pos == 4 && bit >= 6 {
+			bit = 0 // these two bits make the pinned zstd decoder allocate up to 64 GiB before it rejects the frame
+		}
+		bad[pos] ^= 1 << bit
+	case 1:
+		bad = good[:c.Draw(len(good), "cut.at")]
+	case 2:
+		bad = []byte{}
+	case 3:
+		bad = object((victim + 1 + c.Draw(n-1, "other")) % n)
+	case 4:
+		bad = []byte(fmt.Sprintf("some other data %d", c.Draw(1000, "other.data")))
+		if !unc {
+			bad, _ = desync.Compress(bad)
+		}
+	case 5: // raw data in a compressed slot and vice versa
+		b := blob[idx.Chunks[victim].Start : idx.Chunks[victim].Start+idx.Chunks[victim].Size]
+		if unc {
+			bad, _ = desync.Compress(b)
+		} else {
+			bad = append([]byte(nil), b...)
+		}
+	case 6:
+		bad = append(append([]byte(nil), good...), byte(c.Draw(256, "tail")))
+	}
+	if bytes.Equal(bad, good) {
+		c.Outcome("corruption-is-identity")
+		return
+	}
+	c.Fault("stored-object-" + kinds[kind])
+	// the store: a directory, a loopback HTTP server, or the real chunk-server in front of the directory
+	storeDir := filepath.Join(c.Dir(), "store.d")
+	for i, ch := range idx.Chunks {
+		f := chunkFile(storeDir, ch.ID, unc)
+		os.MkdirAll(filepath.Dir(f), 0755)
+		o := object(i)
+		if i == victim {
+			o = bad
+		}
+		os.WriteFile(f, o, 0644)
+	}
+	backend := c.Draw(3, "backend")
+	location := storeDir
+	switch backend {
+	case 1:
+		g, err := newGateServer(false)
+		if err != nil {
+			c.HarnessError("%v", err)
+			return
+		}
+		defer g.close()
+		for i, ch := range idx.Chunks {
+			o := object(i)
+			if i == victim {
+				o = bad
+			}
+			s := ch.ID.String()
+			ext := ".cacnk"
+			if unc {
+				ext = ""
+			}
+			g.chunks["/"+s[:4]+"/"+s+ext] = o
+		}
+		location = g.url()
+	case 2:
+		sargs := []string{"chunk-server", "-s", storeDir}
+		if unc {
+			sargs = append(sargs, "-u")
+			// the server reads its own store through the config as well
+		}
+		cfgS := filepath.Join(c.Dir(), "server-config.json")
+		os.WriteFile(cfgS, []byte(fmt.Sprintf(`{"store-options": {%q: {"uncompressed": %v}}}`, storeDir, unc)), 0644)
+		stop, addr, err := startServer(append([]string{"--config", cfgS}, sargs...)...)
+		if errors.Is(err, errProcTimeout) {
+			c.Probe("procsim-timeout-case-dropped")
+			return
+		}
+		if err != nil {
+			c.HarnessError("%v", err)
+			return
+		}
+		defer stop()
+		location = "http://" + addr + "/"
+	}
+	// client configuration: the store's format, decoys that must not apply, flags that must not disable verification
+	disabled := c.Chance(1, 8, "verify.disabled")
+	cfgFile := filepath.Join(c.Dir(), "config.json")
+	entries := []string{fmt.Sprintf(`%q: {"uncompressed": %v, "skip-verify": %v}`, location, unc, disabled)}
+	if c.Bool("cfg.decoy") {
+		entries = append(entries, fmt.Sprintf(`%q: {"skip-verify": true}`, filepath.Join(c.Dir(), "elsewhere")), `"http://198.51.100.7/*": {"skip-verify": true, "uncompressed": true}`)
+	}
+	os.WriteFile(cfgFile, []byte(`{"store-options": {`+strings.Join(entries, ", ")+`}}`), 0644)
+	consumer := c.Draw(3, "consumer")
+	out := filepath.Join(c.Dir(), "out")
+	cacheDir := filepath.Join(c.Dir(), "cache.d")
+	os.MkdirAll(cacheDir, 0755)
+	indexFile := filepath.Join(c.Dir(), "blob.caibx")
+	writeIndexFile(indexFile, idx)
+	nflag := []string{"1", "3"}[c.Draw(2, "n")]
+	args := []string{"--config", cfgFile}
+	switch consumer {
+	case 0:
+		args = append(args, "extract", "-n", nflag, "-e", "0", "-s", location)
+	case 1:
+		args = append(args, "cat", "-n", nflag, "-e", "0", "-s", location)
+	case 2:
+		args = append(args, "cache", "-n", nflag, "-e", "0", "-s", location, "-c", cacheDir)
+	}
+	if c.Bool("flag.trust") {
+		args = append(args, "-t")
+	}
+	if consumer != 2 && c.Bool("flag.cache") {
+		args = append(args, "-c", cacheDir)
+	}
+	args = append(args, indexFile)
+	if consumer != 2 {
+		args = append(args, out)
+	}
+	c.Class(fmt.Sprintf("cli damaged-object %s unc=%v backend=%d consumer=%d disabled=%v", kinds[kind], unc, backend, consumer, disabled))
+	c.Note("real `desync %s`; object of chunk %d of %d %s (%d -> %d bytes)", strings.Join(args, " "), victim, n, kinds[kind], len(good), len(bad))
+	c.NonTrivial()
+	exit, _, stderr, err := runDesyncEnv(nil, 120*time.Second, args...)
+	if errors.Is(err, errProcTimeout) {
+		c.Probe("procsim-timeout-case-dropped")
+		return
+	}
+	if err != nil {
+		c.HarnessError("%v", err)
+		return
+	}
+	c.SubEval(1)
+	if disabled {
+		c.Outcome("verification-disabled")
+		return
+	}
+	if exit != 0 {
+		c.Outcome("error-reported")
+		_ = stderr
+		return
+	}
+	site := "desync " + []string{"extract", "cat", "cache"}[consumer]
+	if consumer == 2 || strings.Contains(strings.Join(args, " "), " -c ") {
+		// whatever entered the cache must be the chunk
+		ls, _ := desync.NewLocalStore(cacheDir, desync.StoreOptions{SkipVerify: true})
+		for i, ch := range idx.Chunks {
+			got, err := ls.GetChunk(ch.ID)
+			if err != nil {
+				if consumer == 2 {
+					c.Violate("pipeline-emitted-wrong-bytes", site, "exit 0 but chunk %d is not in the cache: %v", i, err)
+					return
+				}
+				continue
+			}
+			b, derr := got.Data()
+			if derr != nil || !bytes.Equal(b, blob[ch.Start:ch.Start+ch.Size]) {
+				c.Violate("pipeline-emitted-wrong-bytes", site+"/cache", "exit 0 and the cache holds an object for chunk %d that is not the chunk (%v); stored object was %s", i, derr, kinds[kind])
+				return
+			}
+		}
+	}
+	if consumer != 2 {
+		got, _ := os.ReadFile(out)
+		if !bytes.Equal(got, blob) {
+			c.Violate("pipeline-emitted-wrong-bytes", site, "exit 0 but the output (%d bytes) differs from the blob (%d bytes); the stored object of chunk %d was %s", len(got), len(blob), victim, kinds[kind])
+			return
+		}
+	}
+	c.Outcome("ok")
+}
